@@ -2,6 +2,8 @@
 package props
 
 import (
+	"slices"
+	"cmp"
 	"context"
 	"fmt"
 	"io"
@@ -210,4 +212,16 @@ var _ = io.EOF
 
 func newClient(tr http.RoundTripper, pageSize int) (ociregistry.Interface, error) {
 	return ociclient.New("sim.example", &ociclient.Options{Transport: tr, Insecure: true, ListPageSize: pageSize})
+}
+
+// sortedKeys: the keys of a harness-side map in a fixed order (Go's own order is
+// random, and the order of the oracle's reads must not differ between two runs of
+// one seed).
+func sortedKeys[K cmp.Ordered, V any](m map[K]V) []K {
+	ks := make([]K, 0, len(m))
+	for k := range m {
+		ks = append(ks, k)
+	}
+	slices.Sort(ks)
+	return ks
 }
